@@ -17,6 +17,15 @@ for cap, tier in ((1, 'quick'), (2, 'quick'), (3, 'quick'), (4, 'quick'), (5, 't
                 props=props, tier=t, unwind=max(cap + 2, 6), unwindset={'verif_havoc.0': 4096}, objbits=10, carriers=TL_CARRIERS,
                 case_key='TaskListT<%s,%d>' % ('int' if pl else 'void', cap))
 
+# code contracts on the real functions, enforced / used modularly by goto-instrument --dfcc (DESIGN 11.10)
+TL_SPEC = 'contracts/tasklist.spec'
+for cap, tier in ((2, 'quick'), (4, 'quick'), (3, 'thorough'), (8, 'thorough')):
+    for alias, entry, enforce, replace in (('remove', 'dfcc_tl_remove', ['tl_remove'], []), ('emplace', 'dfcc_tl_emplace', ['tl_emplace'], []), ('clear', 'dfcc_tl_clear', ['tl_clear'], []),
+                                           ('client', 'dfcc_tl_client', [], ['tl_emplace', 'tl_remove'])):
+        job(id='C19.dfcc.cap%d.%s' % (cap, alias), tu='tier_a/tasklist.cpp', defs={'CAP': cap}, entry=entry, props=['C19', 'C11'], tier=tier, mode='dfcc', unwind=max(cap + 2, 6), objbits=10, timeout=600,
+            dfcc={'contracts': TL_SPEC, 'enforce': enforce, 'replace': replace}, carriers=[r'TaskListT<.*>::emplace', r'TaskListT<.*>::remove', r'TaskListT<.*>::clear\(\)'],
+            case_key='TaskListT<void,%d> contract %s' % (cap, alias))
+
 # ------------------------------------------------------------------ C19 arrays
 DA_CARRIERS = [r'DynamicArrayT<.*>::emplace', r'DynamicArrayT<.*>::operator\+=', r'DynamicArrayT<.*>::operator\[\]', r'StaticArrayT<.*>::fill', r'StaticArrayT<.*>::empty', r'StaticArrayT<.*>::operator!=']
 for cap, cap2, tier in ((1, 1, 'quick'), (2, 3, 'quick'), (4, 3, 'quick'), (5, 5, 'thorough'), (8, 4, 'thorough')):
@@ -328,7 +337,8 @@ machine_jobs(M_PAY, kinds=(0,), upd_kinds_quick=(), tier='thorough')
 # ------------------------------------------------------------------ C16: logger / structure report (resumable machine, verbose and interface logging)
 for mode, name in ((1, 'verbose'), (2, 'interface')):
     M_LOG = Machine('log_' + name, 'tier_c/m_resumable.cpp', [-1, 0, 0, 2, 2, 0], ['C', 'L', 'C', 'L', 'L', 'L'], defs={'VM_LOGGER': mode})
-    base = dict(tu=M_LOG.tu, defs=M_LOG.defs, unwind=12, objbits=12, timeout=900)
+    base = dict(tu=M_LOG.tu, defs=M_LOG.defs, unwind=12, objbits=12, timeout=900,
+                unwindset={'_ZL23check_log_mirrors_tracev.0': 202, '_ZL19body_logger_neutralii.0': 66, '_ZL19body_logger_neutralii.1': 66})   # loops of the harness itself (trace / log buffers)
     for d in range(1, M_LOG.n):
         for k in (0, 2):
             tier = 'quick' if (mode == 1 or k == 0) else 'thorough'
@@ -341,7 +351,7 @@ for mode, name in ((1, 'verbose'), (2, 'interface')):
         i = max(M_LOG.active_set(c))
         for d in range(1, M_LOG.n):
             job(id='C.%s.logupd.c%d.d%d' % (M_LOG.name, c, d), entry='step_logger_update', key=[c, i, 0, d], props=['C16'], tier='quick' if (mode == 1 and d in (1, 4)) else 'thorough',
-                carriers=[r'R_<.*>::update'], case_key='%s/logger during update/cfg=%d/dest=%d' % (name, c, d), **dict(base, unwindset={'_ZL23check_log_mirrors_tracev.0': 90}))
+                carriers=[r'R_<.*>::update'], case_key='%s/logger during update/cfg=%d/dest=%d' % (name, c, d), **base)
 
 M_UTILN = Machine('utiln', 'tier_c/m_util.cpp', [-1, 0, 0, 2, 3, 3, 2, 2, 7, 7, 9, 9], ['C', 'L', 'C', 'C', 'L', 'L', 'L', 'O', 'L', 'C', 'L', 'L'], defs={'VM_NESTED_UTIL': None}, unwind=26)
 for region, full, tier in ((2, 0, 'quick'), (3, 0, 'quick'), (9, 0, 'quick'), (2, 1, 'thorough')):
@@ -349,8 +359,10 @@ for region, full, tier in ((2, 0, 'quick'), (3, 0, 'quick'), (9, 0, 'quick'), (2
         timeout=1500, mem_gb=24, tier=tier, cbmc_flags=['--slice-formula'],
         carriers=[r'C_<.*>::deepReportUtilize', r'O_<.*>::deepReportUtilize', r'OS_<.*>::wideReportUtilize', r'C_<.*>::deepRequestUtilize'], case_key='nested utility/utilize region %d%s' % (region, ' incl. product/mean rule' if full else ''))
 
+job(id='C.util.anonymous_defaults', tu='tier_c/m_util.cpp', defs={'VM_HEADLESS_UTIL': None}, entry='proof_anonymous_defaults', props=['C12', 'C02', 'C01'], unwind=18, objbits=12, timeout=600,
+    carriers=[r'S_<.*>::wrapUtility', r'S_<.*>::deepReportUtilize', r'S_<.*>::wrapSelect'], case_key='anonymous head answers like the defaults')
 M_UTILH = Machine('utilh', 'tier_c/m_util.cpp', [-1, 0, 0, 2, 3, 3, 2], ['C', 'L', 'C', 'C', 'L', 'L', 'L'], defs={'VM_HEADLESS_UTIL': None}, unwind=18)
-job(id='C.utilh.utilize_headless.r2', tu=M_UTILH.tu, defs=M_UTILH.defs, entry='step_utilize_nested', key=[2, 1], props=['C12', 'C01', 'C02', 'C11'], unwind=18, objbits=12, timeout=1500, mem_gb=24, cbmc_flags=['--slice-formula'],
+job(id='C.utilh.utilize_headless.r2', tu=M_UTILH.tu, defs=M_UTILH.defs, entry='step_utilize_nested', key=[2, 1], props=['C12', 'C01', 'C02', 'C11'], tier='thorough', unwind=18, objbits=12, timeout=1500, mem_gb=24, cbmc_flags=['--slice-formula'],
     carriers=[r'C_<.*>::deepReportUtilize', r'S_<.*EmptyT.*>::wrapUtility|S_<.*>::wrapUtility', r'C_<.*>::deepRequestUtilize'], case_key='headless nested utility/utilize region 2 (anonymous head counts as 1)')
 
 # ------------------------------------------------------------------ C11: request queue beyond capacity (known finding)
@@ -370,6 +382,16 @@ def c15_machine(name, defs, flavour, tier='quick'):
 c15_machine('all_single', {}, 'single'); c15_machine('all_dev', {}, 'dev')
 c15_machine('none_single', {'VM_FEATURES': 0}, 'single'); c15_machine('plans_serial_single', {'VM_FEATURES': 1}, 'single'); c15_machine('history_utility_single', {'VM_FEATURES': 2}, 'single')
 c15_machine('none_dev', {'VM_FEATURES': 0}, 'dev', tier='thorough'); c15_machine('plans_serial_dev', {'VM_FEATURES': 1}, 'dev', tier='thorough'); c15_machine('history_utility_dev', {'VM_FEATURES': 2}, 'dev', tier='thorough')
+# Config option chains: bottom-up reactions alone, and with head-room options chained after / before it (C15: options never change unrelated behaviour; C05: bottom-up order)
+for opt in (1, 2, 3):
+    m = Machine('options%d' % opt, 'tier_c/m_resumable.cpp', [-1, 0, 0, 2, 2, 0], ['C', 'L', 'C', 'L', 'L', 'L'], defs={'VM_OPTIONS': opt})
+    base = dict(tu=m.tu, defs=m.defs, unwind=20, objbits=12, timeout=900, count_all_as='C15')      # (task pool of 16 slots: its constructor loop needs 17 unwindings)
+    for c in range(m.count(0)):
+        for e in ('step_order_update', 'step_order_react', 'step_order_query'):
+            job(id='C15.%s.%s.c%d' % (m.name, e[5:], c), entry=e, key=[c], props=['C15', 'C05'], quick_for=['C15', 'C05'] if (e == 'step_order_react' or c == 2) else ['C15'], carriers=[r'R_<.*>::react'] if e == 'step_order_react' else [],
+                case_key='%s/%s/cfg=%d' % (m.name, e[5:], c), **base)
+    for d in (1, 4):
+        job(id='C15.%s.imm.change.d%d' % (m.name, d), entry='step_immediate', key=[0, d], props=['C15'], carriers=[], case_key='%s/immediate change dest=%d' % (m.name, d), **base)
 for tu, defs in (('tier_c/m_resumable.cpp', {}), ('tier_c/m_ortho.cpp', {}), ('tier_c/m_util.cpp', {}), ('tier_c/m_plan.cpp', {}), ('tier_a/tasklist.cpp', {'CAP': 4}), ('tier_a/arrays.cpp', {'CAP': 4, 'CAP2': 3}),
                  ('tier_a/bits.cpp', {'VP_N': 17}), ('tier_a/random.cpp', {}), ('tier_b/registry.cpp', {}), ('tier_b/plans.cpp', {'VP_TCAP': 3}), ('tier_c/m_resumable.cpp', {'VM_FEATURES': 0})):
     job(id='C15.ir_equal.%s%s' % (tu.split('/')[1][:-4], '' if not defs else '.' + '_'.join('%s%s' % kv for kv in sorted(defs.items()))), tu=tu, defs=defs, entry='-', mode='ir_equal', props=['C15'], carriers=[],
@@ -407,10 +429,11 @@ QUICK_TABLE = [
     (r'^C\.oroot\.imm\.',              ['C01', 'C02', 'C03', 'C04']),
     (r'^C\.oroot\.upd\.c\d+\.i\d+\.',  []),
     (r'^C\.oroot\.(init|exit_enter|reset|cfg_count)$', ['C01', 'C02', 'C03']),
-    (r'^C\.ortho\.imm\.(change|resume)', ['C01', 'C03', 'C13', 'C11']),
+    (r'^C\.ortho\.imm\.(change|resume)', ['C01', 'C03', 'C13']),            # (with the safety flags these 18 jobs cost 100 CPU-minutes: C11 runs them in the thorough tier)
     (r'^C\.ortho\.imm\.',                ['C02']),
     (r'^C\.plan\.imm\.',                 []),
-    (r'^C\.(resumable|ortho)\.upd\.c\d+\.none$', ['C01', 'C02', 'C04', 'C11']),
+    (r'^C\.resumable\.upd\.c\d+\.none$', ['C01', 'C02', 'C04', 'C11']),
+    (r'^C\.ortho\.upd\.c\d+\.none$',     ['C01', 'C02', 'C04']),
     (r'^C\.\w+\.upd\.c\d+\.none$',       ['C02']),
     (r'^C\.plan\.upd\.',                 []),
     (r'^C\.nested\.upd\.c\d+\.i\d+\.(change)\.',    ['C02']),
@@ -432,6 +455,7 @@ QUICK_TABLE = [
     (r'^B\.registry\.',                  None),
     (r'^C10\.',                          ['C10']),
     (r'^C15\.',                          ['C15']),
+    (r'^C19\.dfcc\.',                   ['C19']),
     (r'^C19\.pool\.cap[24]\.',           None),
     (r'^C19\.pool\.',                    ['C19']),
     (r'^C19\.array\.cap(2_3|4_3)\.int\.da_copy_clear', None),
